@@ -33,15 +33,19 @@ def table(full):
         for v in sorted(cand):
             if lo <= v <= hi:
                 vals.append(({"t": t, "v": str(v)}, ("int", Fraction(v))))
-    fl = [0.0, 1.0, -1.0, 1.5, -1.5, 0.5, 2.0, 100.0, 0.25, 10.0, 9.0, 255.0, 127.0, 1e6, 123456.5, 2.0**53, -2.0**53, 3.0e9]
+    # 0.1, 2.7, -0.3: not dyadic — the float32 and the float64 nearest to them differ, and so do their %v texts when a
+    # float32 is widened before it is printed
+    fl = [0.0, 1.0, -1.0, 1.5, -1.5, 0.5, 2.0, 100.0, 0.25, 10.0, 9.0, 255.0, 127.0, 1e6, 123456.5, 2.0**53, -2.0**53, 3.0e9,
+          0.1, 2.7, -0.3]
     if not full:
-        fl = [0.0, 1.0, -1.0, 1.5, 0.5, 2.0, 10.0, 2.0**53]
+        fl = [0.0, 1.0, -1.0, 1.5, 0.5, 2.0, 10.0, 2.0**53, 0.1, -0.3]
     for x in fl:
         vals.append(({"t": "float64", "v": str(f2bits(x))}, ("flt", Fraction(x))))
         vals.append(({"t": "float32", "v": str(f32bits(x))}, ("flt", Fraction(struct.unpack("<f", struct.pack("<f", x))[0]))))
-    strs = ["", "1", "1.5", "10", "9", "a", "ab", "b", "-1", "true", "<nil>", "A", "é", "1e+06"]
+    strs = ["", "1", "1.5", "10", "9", "a", "ab", "b", "-1", "true", "<nil>", "A", "é", "1e+06", "0.1", "2.7", "-0.3",
+            "0.10000000149011612"]
     if not full:
-        strs = ["", "1", "1.5", "10", "a", "ab", "-1"]
+        strs = ["", "1", "1.5", "10", "a", "ab", "-1", "0.1", "-0.3"]
     for s in strs:
         vals.append(({"t": "string", "v": s}, ("str", s)))
     vals.append(({"t": "bool", "v": "true"}, ("other", "true")))
